@@ -98,6 +98,7 @@ func runC11(c *Ctx) {
 	// all connection goroutines end: their sends cannot wait for a reader that is gone (C05)
 	c05TransportGoroutines(c)
 	c05TransportBlocking(c)
+	c11Round2(c)
 }
 
 func c11InitFirst(c *Ctx) {
